@@ -1,8 +1,11 @@
 package msgpackpatch
 
 import (
+	"bytes"
 	"errors"
 	"fmt"
+
+	"github.com/vmihailenco/msgpack/v5"
 )
 
 // OpKind identifies a mutation operation.
@@ -58,6 +61,16 @@ func Apply(blob []byte, ops []Op) ([]byte, error) {
 }
 
 func applyOp(skel *Skeleton, orig []byte, op Op, path *Path) error {
+	// Values are spliced into the body byte for byte, so a value that is not exactly one
+	// well-formed msgpack value would leave a body that can no longer be decoded.
+	switch op.Kind {
+	case OpSet, OpInc, OpAppend, OpPrepend, OpMerge:
+		if len(op.Value) > 0 {
+			if err := validateValue(op.Value); err != nil {
+				return err
+			}
+		}
+	}
 	switch op.Kind {
 	case OpSet:
 		return applySet(skel, op, path)
@@ -179,6 +192,18 @@ func applyDelete(skel *Skeleton, path *Path) error {
 		cur.Parent.ArrayItems = append(cur.Parent.ArrayItems[:idx], cur.Parent.ArrayItems[idx+1:]...)
 	case SegAppend:
 		return fmt.Errorf("%w: DELETE cannot target append marker", ErrPathInvalid)
+	}
+	return nil
+}
+
+// validateValue checks that raw holds exactly one well-formed msgpack value.
+func validateValue(raw []byte) error {
+	r := bytes.NewReader(raw)
+	if err := msgpack.NewDecoder(r).Skip(); err != nil {
+		return fmt.Errorf("%w: op value: %v", ErrInvalidMsgpack, err)
+	}
+	if r.Len() != 0 {
+		return fmt.Errorf("%w: op value has %d trailing bytes", ErrInvalidMsgpack, r.Len())
 	}
 	return nil
 }
